@@ -44,13 +44,13 @@ type EntryResult struct {
 }
 
 type RunOpts struct {
-	Tier      string
-	Verbose   bool
-	Known     map[string]bool
-	Cross     []string
-	TimeLimit time.Duration
-	Model     map[string]string // concrete replay
-	NoMerge   bool
+	Tier         string
+	Verbose      bool
+	Known        map[string]bool
+	Cross        []string
+	TimeLimit    time.Duration
+	Model        map[string]string // concrete replay
+	NoMerge      bool
 	NoModelCache bool
 }
 
